@@ -17,14 +17,23 @@ be = sys.argv[1]
 def mk(F):
     data = np.arange(F * 1 * 2 * 2, dtype=np.float32).reshape(F, 1, 2, 2) + 1
     conf = np.ones((F, 1, 2), dtype=np.float32)
+    conf[:, 0, 0] = 0.5 + np.arange(F, dtype=np.float32) / 256          # a distinct confidence per frame
+    conf[1::2, 0, 1] = 0                                                 # and a missing point in every odd frame
     from pose_format.numpy import NumPyPoseBody
     b = NumPyPoseBody(30.0, data, conf)
     return b if be == "numpy" else (b.torch() if be == "torch" else b.tensorflow())
 def frames_of(body):
+    """per frame: [first coordinate, confidence of point 0 (in 1/256), point 1 missing?] — the three things a frame carries"""
     d = body.data
-    if be == "numpy": return [int(x) for x in np.asarray(d.data)[:, 0, 0, 0]]
-    t = d.tensor if hasattr(d, "tensor") else d
-    return [int(x) for x in np.asarray(t)[:, 0, 0, 0]] if be == "tf" else [int(x) for x in t.numpy()[:, 0, 0, 0]]
+    if be == "numpy":
+        raw, miss = np.asarray(d.data), np.asarray(np.ma.getmaskarray(d))
+        conf = np.asarray(body.confidence)
+    else:
+        t, m = d.tensor, d.mask
+        raw = np.asarray(t) if be == "tf" else t.numpy()
+        miss = ~(np.asarray(m) if be == "tf" else m.numpy()).astype(bool)
+        conf = np.asarray(body.confidence) if be == "tf" else body.confidence.numpy()
+    return [[int(raw[f, 0, 0, 0]), int(round(float(conf[f, 0, 0]) * 256)), int(bool(miss[f, 0, 1, 0]))] for f in range(raw.shape[0])]
 for line in sys.stdin:
     if not line.strip(): continue
     c = json.loads(line)
@@ -36,12 +45,15 @@ for line in sys.stdin:
     try:
         if c["call"] == "select_frames":
             r = body.select_frames(c["ixs"]); out = {"frames": frames_of(r), "fps": float(r.fps)}
+            out["again"] = frames_of(body.select_frames(c["ixs"]))
         elif c["call"] == "slice_step":
             r = body.slice_step(c["by"]); out = {"frames": frames_of(r), "fps": float(r.fps)}
+            out["again"] = frames_of(body.slice_step(c["by"]))
         else:
             r, idx = getattr(body, c["call"])(*c["args"])
             idx = [int(x) for x in (np.asarray(idx) if be == "tf" else idx)]
             out = {"frames": frames_of(r), "indexes": idx, "fps": float(r.fps)}
+        out["source_after"] = frames_of(body)
     except Exception as e:
         out = {"error": type(e).__name__ + ": " + str(e)[:100]}
     sys.stdout.write(json.dumps(out) + "\n"); sys.stdout.flush()
@@ -104,7 +116,10 @@ def run(ctx):
             sig = {"backend": be, "call": c["call"]}
             if "error" in o:
                 ctx.violation("a frame operation raises", info, {"error": o["error"]}, True, size=F, signature=sig); continue
-            src = [4 * f + 1 for f in range(F)]                         # value of cell (f, 0, 0, 0) in the source
+            src = [[4 * f + 1, 128 + f, f % 2] for f in range(F)]           # per frame of the source: cell (f, 0, 0, 0), confidence of point 0 in 1/256, point 1 missing?
+            if o.get("source_after") != src or ("again" in o and o["again"] != o["frames"]):
+                ctx.violation("a frame operation changes the pose it is applied to, or gives another result the second time", info,
+                              {"source_changed": o.get("source_after") != src}, True, size=F, signature=dict(sig, clause="source")); continue
             if c["call"] == "select_frames":
                 if o["frames"] != [src[i] for i in c["ixs"]] or o["fps"] != 30.0:
                     ctx.violation("select_frames does not return exactly the requested frames in the requested order", info, {"got": o["frames"]}, True, size=F, signature=sig)
